@@ -78,9 +78,7 @@ example : (parseOf (Transaction.visit C15_exampleTx)).isOk = true := by decide
 example : (Transaction.visit C15_exampleTx recorder []).2 = parseOf (Transaction.visit C15_exampleTx) := by decide
 /-- a breaking visitor does get a different result: the hypothesis cannot be dropped -/
 example : (Transaction.visit C15_exampleTx (breakAt 0) ([], 0)).2 ≠ parseOf (Transaction.visit C15_exampleTx) := by
-  decide
-
-/-! ## L1 corollaries (generated by tools/genlift.py) -/
+  decide/-! ## L1 corollaries (generated by tools/genlift.py) -/
 section L1
 open BS.Ref BS.Lift
 
